@@ -328,6 +328,11 @@ func SelectDimension(data any, dimensions []*IndexSelector) (any, error) {
 	if len(dimensions) == 0 {
 		return data, nil
 	}
+	// an index or a range applies to an array only, and must lie inside it
+	array, ok := data.([]any)
+	if !ok {
+		return nil, EXPECTATION_FAILED.Extend(fmt.Sprintf("failed to execute read operation. index selectors are not valid on %T type", data))
+	}
 	index := dimensions[0]
 	switch index.GetType() {
 	case RANGE:
@@ -339,16 +344,19 @@ func SelectDimension(data any, dimensions []*IndexSelector) (any, error) {
 			}
 			end := index[1]
 			if end == -1 {
-				end = len(data.([]any))
+				end = len(array)
 			}
-			return SelectDimension(data.([]any)[begin:end], dimensions[1:])
+			if begin < 0 || end > len(array) || begin > end {
+				return nil, EXPECTATION_FAILED.Extend(fmt.Sprintf("failed to execute read operation. range (%d:%d) is outside an array of %d elements", begin, end, len(array)))
+			}
+			return SelectDimension(array[begin:end], dimensions[1:])
 		}
 	case INDEX:
 		{
 			index := index.GetIndex()
 			if index == -1 {
 				slice := make([]any, 0)
-				for _, item := range data.([]any) {
+				for _, item := range array {
 					rs, err := SelectDimension(item, dimensions[1:])
 					if err != nil {
 						return nil, err
@@ -357,7 +365,10 @@ func SelectDimension(data any, dimensions []*IndexSelector) (any, error) {
 				}
 				return slice, nil
 			}
-			return SelectDimension(data.([]any)[index], dimensions[1:])
+			if index < 0 || index >= len(array) {
+				return nil, EXPECTATION_FAILED.Extend(fmt.Sprintf("failed to execute read operation. index %d is outside an array of %d elements", index, len(array)))
+			}
+			return SelectDimension(array[index], dimensions[1:])
 		}
 	default:
 		{
